@@ -34,7 +34,11 @@ OpEvent ==
     /\ Rec[l].ev = "Op"
     /\ LET e == Rec[l]
            exp == Result(regs, e.op)
-       IN  IF "panic" \in DOMAIN e.res
+       IN  \* (an IR-level chain may refuse - an intermediate amount can leave the code's integers although the result
+           \*  fits -; a refusal is not a wrong value)
+           IF "ir_error" \in DOMAIN e.res
+           THEN regs' = Append(regs, exp) /\ reps' = Append(reps, exp) /\ bad' = bad
+           ELSE IF "panic" \in DOMAIN e.res
            THEN /\ regs' = Append(regs, exp) /\ reps' = Append(reps, exp)
                 /\ bad' = IF Representable(exp)
                           THEN Flag("panic", [op |-> e.op.op, site |-> e.res.panic.file, msg |-> e.res.panic.msg])
